@@ -278,3 +278,75 @@ pub fn check_tiny(seed: u64, out: &mut FOut) {
         }
     }
 }
+
+/// A broadcast handler that accepts every item, again and again, with an ASYMMETRIC invalidation (a key invalidates
+/// the same topic at the same or a lower version) - the harness handler of the model never re-accepts an item.
+/// C16: an item invalidated by a newly accepted key is never transmitted again, also when the newly accepted item
+/// is byte-identical to one that is still pending.
+#[derive(Clone, Copy, Debug, PartialEq, Eq)]
+pub struct RKey {
+    k: u8,
+    v: u8,
+}
+impl foca::Invalidates for RKey {
+    fn invalidates(&self, other: &Self) -> bool {
+        self.k == other.k && self.v >= other.v
+    }
+}
+#[derive(Debug, Default)]
+pub struct Reaccept;
+impl foca::BroadcastHandler<crate::vid::VId> for Reaccept {
+    type Key = RKey;
+    type Error = TinyErr;
+    fn receive_item(&mut self, data: &[u8], _sender: Option<&crate::vid::VId>) -> Result<Option<RKey>, TinyErr> {
+        if data.len() < 2 {
+            return Err(TinyErr);
+        }
+        Ok(Some(RKey { k: data[0], v: data[1] }))
+    }
+}
+
+pub fn check_reaccept(seed: u64, out: &mut FOut) {
+    use crate::vid::{header_bytes, VCodec, VId};
+    for local_first in [false, true] {
+        let own = VId::new(9, 1, 0, 0);
+        let peer = VId::new(2, 0, 0, 0);
+        let mut f = Foca::with_custom_broadcast(own, big_cfg().to_config(), VRng::new(seed ^ 0x2EAC), VCodec, Reaccept);
+        let mut rt: AccumulatingRuntime<VId> = AccumulatingRuntime::new();
+        let _ = f.apply_many(core::iter::once(Member::alive(peer)), false, &mut rt);
+        let newer: Vec<u8> = vec![7, 2];
+        let older: Vec<u8> = vec![7, 1, 42];
+        let mut dgram = header_bytes(&Header { src: peer, src_incarnation: 0, dst: own, message: Message::Broadcast });
+        dgram.extend([0u8, newer.len() as u8]);
+        dgram.extend(&newer);
+        // the newer item arrives and is pending; the older one is accepted afterwards (it does not invalidate the
+        // newer one); then the very same newer item arrives again: it is accepted again and invalidates the older one
+        let r1 = f.handle_data(&dgram, &mut rt);
+        let r2 = if local_first { f.add_broadcast(&older).map(|_| ()) } else {
+            let mut d2 = header_bytes(&Header { src: peer, src_incarnation: 0, dst: own, message: Message::Broadcast });
+            d2.extend([0u8, older.len() as u8]);
+            d2.extend(&older);
+            f.handle_data(&d2, &mut rt)
+        };
+        let r3 = f.handle_data(&dgram, &mut rt);
+        while rt.to_send().is_some() {}
+        out.runs += 1;
+        let mut seen_older = 0usize;
+        let mut rounds = 0;
+        while f.custom_broadcast_backlog() > 0 && rounds < 400 {
+            rounds += 1;
+            let _ = f.broadcast(&mut rt);
+            while let Some((_, data)) = rt.to_send() {
+                if let Some((_, _, items)) = crate::model::split_datagram(&data) {
+                    seen_older += items.iter().filter(|i| **i == older).count();
+                }
+            }
+        }
+        if r1.is_err() || r2.is_err() || r3.is_err() || seen_older > 0 {
+            out.hit(
+                "C16:item-not-pending-or-invalidated-or-over-limit",
+                J::s(format!("item [7,2] pending, item [7,1,42] accepted ({}), the identical [7,2] accepted again (it invalidates [7,1,42]): results {r1:?} {r2:?} {r3:?}; [7,1,42] was transmitted {seen_older} more times", if local_first { "add_broadcast" } else { "from the peer" })),
+            );
+        }
+    }
+}
